@@ -216,6 +216,14 @@ class DictField(Field):
         if not self._use_proxy:
             return value
 
+        if (
+            isinstance(value, DictProxy)
+            and value.cfg is cfg
+            and value.dict_field is self
+        ):
+            # already this configuration's validated dict for this field (``cfg.d |= ...``)
+            return value
+
         return DictProxy(cfg, self, value)
 
     def __setdefault__(self, cfg: Config) -> None:
